@@ -42,6 +42,7 @@ fn dispatch(line: &str) -> String {
         "errstop" => server::errstop_line(&toks),
         "wrqsilent" => server::wrqsilent_line(&toks),
         "staleretx" => server::staleretx_line(&toks),
+        "quiet" => server::quiet_line(&toks),
         "multi" => multi::multi_line(&toks),
         "cli" => client::cli_line(&toks),
         _ => "bad-op".to_string(),
